@@ -329,7 +329,10 @@ def init_ops(rng, name, st_of, pad_of):
         return pre + [f"create {name} cls={cls} enc={enc}"]
     img = small_image(rng, cls, enc)
     d = elfspec.decode(img)
-    prog = [i for i, s in enumerate(d["sections"]) if i > 0 and s["sh_type"] == 1] if d else []
+    # editable data: PROGBITS sections outside every segment (a loaded segment keeps the data buffer of its
+    # original p_filesz; growing a member and saving makes get_file_size() exceed that buffer - not this property)
+    covered = {k for g in d["segments"] for k in g["members"]} if d else set()
+    prog = [i for i, s in enumerate(d["sections"]) if i > 0 and s["sh_type"] == 1 and i not in covered] if d else []
     st_of[name] = {"kind": "load", "nsec": d["ehdr"]["e_shnum"] if d else 0, "prog": prog}
     lazy = 1 if rng.random() < 0.55 else 0
     if pad_of.get(name):
